@@ -6,8 +6,8 @@ MODULE = "LalrpopModel.Props.C08"
 THEOREMS = ['LalrpopModel.LR.driver_no_panic', 'LalrpopModel.LR.drive_complete', 'LalrpopModel.LR.actions_postorder_once', 'LalrpopModel.LR.GenericThms.run_done_stable', 'LalrpopModel.LR.GenericThms.pulled_le', 'LalrpopModel.LR.driver_terminates', 'LalrpopModel.LR.driver_terminates_under_V7', 'LalrpopModel.LR.parse_decides', 'LalrpopModel.LR.driver_terminates_recovery', 'LalrpopModel.LR.driver_terminates_recovery_validated', 'LalrpopModel.LR.eof_recovery_no_found_token', 'LalrpopModel.LR.accepts_answers_on_run', 'LalrpopModel.LR.recovery_progress', 'LalrpopModel.LR.accept_steps_exact']
 MANIFEST = {
     "category": "proof",
-    "technique": 'Lean 4 proof (panic-freedom invariant, lexer progress) + step-budget search on the real code',
-    "text": 'driver_no_panic: for validated tables no Rust panic site of the driver/generated reduce is reachable on any input, with or without recovery; accepted inputs finish after |w|+1 pulls and nodes+1 reductions; lexer_progress/no_empty_token (Props/C08Lex) bound the built-in lexer. Hang/panic search under a step budget on the real driver and compiled parsers.',
+    "technique": 'Lean 4 proof (panic-freedom invariant, termination with a linear step bound under a per-table certificate V7, lexer progress) + certificates per automaton + step-budget search on the real code',
+    "text": 'driver_no_panic: for validated tables no Rust panic site of the driver/generated reduce is reachable on any input, with or without recovery; driver_terminates / driver_terminates_recovery: every run ends within a number of steps linear in the input length for tables passing the executable check V7 (run on every automaton lalrpop builds, `validate3`); accept_steps_exact: accepted inputs take exactly 2|w|+nodes+2 steps; lexer_progress/no_empty_token (Props/C08Lex) bound the built-in lexer. Hang/panic search under a step budget on the real driver and compiled parsers.',
     "note": 'Termination with a step bound linear in the input length is proved for every table passing the executable check V7 (checkTerm: the reduce loop halts from every reachable two-state stack under every lookahead), recovery on or off (driver_terminates_recovery); V7 is run on every automaton (`validate3`). Termination from `validate` alone (without V7) is not proved (driver_terminates_of_validate kept as a comment).',
 }
 
